@@ -117,8 +117,28 @@ Theorem apply_matrix_spec : forall f A rows us c,
   g_val (b_matrix f A rows) us c = rdot 0 (map (A c) (seq 0 (nc f))) (fun k => g_val f us k).
 Proof. exact matrix_spec_l. Qed.
 
-Theorem getitem_spec : forall f I us c, g_val (b_getitem f I) us c = g_val f us I.
+(* __getitem__: component c of f[I] is component cs[c] of f, for every selection list cs (the
+   positions an int / slice / index list / tuple denotes, with Python's negative-index and
+   slice semantics: py_wrap, py_slice, py_list, sel_comps of Model.v) *)
+Theorem getitem_spec : forall f cs us c, g_val (b_select f cs) us c = g_val f us (nth c cs 0%nat).
 Proof. exact getitem_spec_l. Qed.
+
+(* NurbsFunc: the selection applies to the numerator components only, the weight stays last *)
+Theorem nurbs_getitem_spec : forall f cs us c, (c < length cs)%nat ->
+  n_val (n_select f cs) us c = n_val f us (nth c cs 0%nat).
+Proof. exact nurbs_getitem_spec_l. Qed.
+
+Theorem py_index_semantics : forall n i,
+  (forall k, (k < n)%nat -> py_wrap n (Z.of_nat k) = Some k)
+  /\ ((1 <= i <= n)%nat -> py_wrap n (- Z.of_nat i) = Some (n - i)%nat)
+  /\ py_wrap n (Z.of_nat n + Z.of_nat i) = None /\ py_wrap n (- Z.of_nat n - 1 - Z.of_nat i) = None.
+Proof. exact py_wrap_spec_l. Qed.
+
+Theorem full_slice_is_identity : forall n, py_slice n None None 1 = seq 0 n.
+Proof. exact full_slice_l. Qed.
+
+Theorem reverse_slice_is_reversal : forall n, py_slice n None None (-1) = rev (seq 0 n).
+Proof. exact reverse_slice_l. Qed.
 
 Theorem as_nurbs_spec : forall f us c, (c < nc f)%nat -> Forall2 in_dom (kvs f) us ->
   n_val (b_as_nurbs f) us c = g_val f us c.
@@ -271,6 +291,10 @@ Print Assumptions translate_spec.
 Print Assumptions scale_spec.
 Print Assumptions apply_matrix_spec.
 Print Assumptions getitem_spec.
+Print Assumptions nurbs_getitem_spec.
+Print Assumptions py_index_semantics.
+Print Assumptions full_slice_is_identity.
+Print Assumptions reverse_slice_is_reversal.
 Print Assumptions as_nurbs_spec.
 Print Assumptions nurbs_translate_spec.
 Print Assumptions nurbs_scale_spec.
